@@ -5,6 +5,7 @@ interleavings and PYTHONHASHSEED (reported as a sanity sample only)."""
 import os, sys, json, hashlib, subprocess, types
 from engines.common import Run, ch_obligations, VERIF, PY
 from engines import sweep as SW
+PYPATH = (os.environ['VERIF_REPO'] + os.pathsep if os.environ.get('VERIF_REPO') else '') + VERIF      # scratch copies of the repository (seed trials) come first
 
 
 # ---- structural fingerprint of library-global state -----------------------------------------------------
@@ -100,8 +101,18 @@ def render_history():
     return {'compared': len(before), 'differences': diffs}
 
 
-def battery():
-    """a battery of parse / plan / render calls over the corpus and the planner family, failures included"""
+def _renamed(sql):
+    """the same statement over differently named tables / CTEs / aliases (catalog names are kept)"""
+    import re
+    sql = re.sub(r'\btbl(\d)', r'tqq\1', sql)
+    sql = re.sub(r'\b(c|w|s|s1|df)\b(?!\s*\()', lambda m: m.group(1) + 'q', sql)
+    return sql
+
+
+def battery(rename=False):
+    """a battery of parse / plan / render calls over the corpus and the planner family, failures included.  rename=True runs the
+    same statements with other table / CTE / alias names: lazily initialised state does not depend on names, leaked state does"""
+    ren = _renamed if rename else (lambda x: x)
     from mindsdb_sql import parse_sql
     from mindsdb_sql.planner import plan_query
     from mindsdb_sql.render.sqlalchemy_render import SqlalchemyRender
@@ -111,7 +122,7 @@ def battery():
     for d in SW.DIALECTS:
         for sql in corpus[d][:150] + ['SELECT # x', 'SELECT FROM', '', 'SELECT 1 1', "SELECT 'unterminated"]:
             try:
-                ast = parse_sql(sql, d)
+                ast = parse_sql(ren(sql), d)
                 str(ast); ast.to_tree(); ast.copy()
                 if d == 'mindsdb':
                     for dn in ('mysql', 'postgres', 'sqlite'):
@@ -122,7 +133,31 @@ def battery():
     for name in c0910lib.SK:
         for ad in (False, True):
             try:
-                PL.plan_sql(c0910lib.text(name, (True,), (), ()), **PL.catalog(as_dicts=ad, api='apidb' in c0910lib.SK[name][0], ts='tspred' in c0910lib.SK[name][0]))
+                PL.plan_sql(ren(c0910lib.text(name, (True,), (), ())), **PL.catalog(as_dicts=ad, api='apidb' in c0910lib.SK[name][0], ts='tspred' in c0910lib.SK[name][0]))
+            except Exception:  # noqa
+                pass
+            n += 1
+    # every other planner family of this framework (generated joins, federated, single-integration, table-model, time-series,
+    # prepared statements): whatever global state some planning path writes, some member of these reaches it
+    texts = [c0910lib.text(i, (), (), ()) for i in range(0, len(c0910lib.GEN), 7)]
+    try:
+        from harness import c08lib, c11lib, c12lib, c14lib, c15lib
+        for mod in (c08lib, c11lib, c12lib, c14lib, c15lib):
+            for attr in ('EXTRA', 'MEMBERS', 'FAMILY', 'SKELETONS', 'STATEMENTS'):
+                v = getattr(mod, attr, None)
+                if isinstance(v, dict):
+                    v = list(v.values())
+                for x in (v or []):
+                    if isinstance(x, (tuple, list)) and x and isinstance(x[0], str):
+                        x = x[0]
+                    if isinstance(x, str) and x[:6].upper() in ('SELECT', 'INSERT', 'UPDATE', 'DELETE', 'CREATE', 'WITH c', 'WITH w') or (isinstance(x, str) and x.upper().startswith('WITH')):
+                        texts.append(x)
+    except Exception:  # noqa
+        pass
+    for sql in texts:
+        for kw in (PL.catalog(ts=True, api=True), dict(integrations=['int1', 'int2', 'int'], default_namespace='int', predictor_metadata=[{'name': 'pred', 'integration_name': 'mindsdb'}])):
+            try:
+                PL.plan_sql(ren(sql.replace('?', '1')), **kw)
             except Exception:  # noqa
                 pass
             n += 1
@@ -215,7 +250,7 @@ def run(tier):
     try:
         battery()          # warm-up (lazy imports, reserved words)
         fp0 = fingerprint()
-        n = battery()
+        n = battery(rename=True) + battery()
         fp1 = fingerprint()
         changed = sorted(k for k in set(fp0) | set(fp1) if fp0.get(k) != fp1.get(k))
         run.validated += n
@@ -234,7 +269,7 @@ def run(tier):
     try:
         code = ("import sys, json, warnings; warnings.filterwarnings('ignore'); sys.path.insert(0, %r)\n"
                 "from harness.C20 import render_history\nprint('@@' + json.dumps(render_history()))\n") % VERIF
-        o = subprocess.run([PY, '-c', code], capture_output=True, text=True, env=dict(os.environ, PYTHONPATH=VERIF), timeout=600)
+        o = subprocess.run([PY, '-c', code], capture_output=True, text=True, env=dict(os.environ, PYTHONPATH=PYPATH), timeout=600)
         line = [l for l in o.stdout.splitlines() if l.startswith('@@')]
         if not line:
             run.error('render history subprocess failed: %s' % (o.stderr[-300:],))
@@ -262,7 +297,7 @@ def run(tier):
                     "    p, e = c0910lib.plan_or_error(c0910lib.text(name, (), (), ()), PL.catalog(api=True, ts=True))\n"
                     "    h.update(repr(p.steps if p else e).encode())\n"
                     "print(h.hexdigest())\n") % VERIF
-            o = subprocess.run([PY, '-W', 'ignore', '-c', code], capture_output=True, text=True, env=dict(os.environ, PYTHONHASHSEED=seed, PYTHONPATH=VERIF), timeout=300)
+            o = subprocess.run([PY, '-W', 'ignore', '-c', code], capture_output=True, text=True, env=dict(os.environ, PYTHONHASHSEED=seed, PYTHONPATH=PYPATH), timeout=300)
             outs.append(o.stdout.strip().splitlines()[-1] if o.stdout.strip() else 'ERR ' + o.stderr[-200:])
         run.extra['hash_seed_sample'] = {'seeds': [1, 777], 'plan_digests_equal': outs[0] == outs[1], 'note': 'sampling, not a solver verdict'}
         if outs[0] != outs[1] and not outs[0].startswith('ERR'):
